@@ -131,9 +131,12 @@ func (e *env) exec(x *Exec) interface{} {
 }
 
 func (e *env) isset(x Expr) (ok bool) {
+	oSc, oCtx, oCont, oFile, oOut, oRet, oRetSet, oBD, oRD := e.sc, e.ctx, e.cont, e.file, e.out, e.ret, e.retSet, e.blockDepth, e.rangeDepth
 	defer func() {
 		if r := recover(); r != nil {
 			if _, isErr := r.(*RefError); isErr {
+				// a failure below isset is swallowed: everything is as it was before the argument was looked at
+				e.sc, e.ctx, e.cont, e.file, e.out, e.ret, e.retSet, e.blockDepth, e.rangeDepth = oSc, oCtx, oCont, oFile, oOut, oRet, oRetSet, oBD, oRD
 				ok = false
 				return
 			}
@@ -148,6 +151,11 @@ func (e *env) isset(x Expr) (ok bool) {
 		var base interface{}
 		if x.X == nil {
 			base = e.ctx
+		} else if ex, isExec := x.X.(*Exec); isExec {
+			// a member of what exec returns: the execution happens; a failure inside it is swallowed like any other
+			// failure below isset (the answer is false, and nothing of the execution stays behind)
+			e.exec(ex)
+			panic(Unspec("isset of a member of the value a successful exec returns"))
 		} else {
 			if !e.isset(x.X) {
 				return false
